@@ -180,6 +180,9 @@ func same(c xsel.Cursor, d *spec.Doc, i int) bool {
 // RunJSON: every token stream within the bound.
 func RunJSON() {
 	max := 7
+	if nd.Tier() > 0 {
+		max = 6 // with all six value kinds instead of four
+	}
 	toks, d, end := gen(max)
 	root, err := xsel.ReadJson(&hx.JSONScript{Toks: toks})
 	nd.Reach("json")
